@@ -202,6 +202,11 @@ var fractionRe = regexp.MustCompile(`^([0-9]+) ?/ ?([0-9]+)$`)
 // Independent of the implementation: decimal digits only, never base auto-detection.
 func PortionOfText(s string) *big.Rat {
 	dec := func(d string) *big.Int {
+		if len(d) > 60 {
+			// long numerals: the digit-by-digit loop below is quadratic
+			n, _ := new(big.Int).SetString(d, 10)
+			return n
+		}
 		n := new(big.Int)
 		ten := big.NewInt(10)
 		for _, c := range d {
@@ -925,17 +930,14 @@ func (m *machine) distribute(d gen.Dest, t *big.Int) *merr {
 				return e
 			}
 			amt := minInt(maxZero(capv), left)
-			if amt.Sign() != 0 {
-				if e := m.route(c.To, amt); e != nil {
-					return e
-				}
-				left.Sub(left, amt)
+			// a clause that receives nothing is still visited (nothing is posted for a zero
+			// amount, but an ill-formed nested destination is reported whatever the amount)
+			if e := m.route(c.To, amt); e != nil {
+				return e
 			}
+			left.Sub(left, amt)
 		}
-		if left.Sign() != 0 {
-			return m.route(d.Remaining, left)
-		}
-		return nil
+		return m.route(d.Remaining, left)
 	case *gen.DstAllot:
 		var as []gen.Allot
 		for _, it := range d.Items {
